@@ -2305,6 +2305,8 @@ def tar_members_seq(o):
 def install_members(reg):
     reg.ext_models[("new", "collections.Counter")] = new_counter
     reg.method_models[("seq", "startswith")] = m_seq_startswith
+    reg.method_models[("seq", "copy")] = lambda ex, st, obj, args, kwargs, node: ([(st, obj)] if not args and not kwargs and not obj.is_bytes
+                                                                                  else ex.havoc_call(st, "seq.copy", args, node))
     reg.method_models[("PathCounts", "get")] = m_pathcounts_get
     reg.ext_models["os.path.normpath"] = str_fn("os.path.normpath", NORMPATH)
     reg.ext_models["str.split"] = m_str_split
@@ -3992,6 +3994,24 @@ def facade_contracts():
             return r
         return FnContract(target=f"{RD}.{meth}", assumed=True, params=[("self", p_unk())] + params, result_maker=rm, raises=raises,
                           note="call-site view for the SevenZipFile facade: the call is recorded (receiver, arguments, result)")
+    # SevenZipReader.list itself: the file list, every entry, in header order (verified; the view below is what the facade sees)
+    def rl_post(c):
+        r = c.result
+        j = z3.Int(fresh_name("j!list"))
+        if isinstance(r, VSeq):
+            e = r.elem(j)
+            return z3.And(r.length == NFILES, z3.Implies(z3.And(j >= 0, j < NFILES), e.t == FINFO(j) if isinstance(e, VExt) and e.sort == "FileInfo" else z3.BoolVal(False)))
+        items = c.ex.concrete_items(c.st, r) if isinstance(r, VRef) else None
+        if items is None:
+            return z3.BoolVal(False)
+        return z3.And([NFILES == len(items)] + [x.t == FINFO(z3.IntVal(i)) if isinstance(x, VExt) and x.sort == "FileInfo" else z3.BoolVal(False)
+                                                for i, x in enumerate(items)])
+
+    out.append(FnContract(
+        target=f"{RD}.list", params=[("self", p_obj("SevenZipReader", {"_files": p_files()}))],
+        ensures=[("every-entry-of-the-file-list-in-header-order", internal(rl_post))], raises=[],
+        note="list() is what archive_extractor's member loop iterates (through SevenZipFile.list): all entries, header order; a copy of a "
+             "sequence value is that sequence (lists built by the parsers are introduced as sequences: PY-LIST-ORDER)"))
     out.append(view("list", [], []))
     out.append(view("needs_password", [], []))
     sf_maker = p_opt(p_ext("ArchiveFile"))
